@@ -446,17 +446,17 @@ class TransformedParameter(AbstractParameter, Parametric, collections.abc.Callab
         return self.tensor.shape[:-1]
 
     def to(self, *args, **kwargs) -> None:
-        for param in self._parameters:
+        for param in self._parameters.values():
             param.to(*args, **kwargs)
         self.need_update = True
 
     def cuda(self, device: Optional[Union[int, torch.device]] = None):
-        for param in self._parameters:
+        for param in self._parameters.values():
             param.cuda(device)
         self.need_update = True
 
     def cpu(self):
-        for param in self._parameters:
+        for param in self._parameters.values():
             param.cpu()
         self.need_update = True
 
